@@ -257,6 +257,8 @@ func suiteExpandDefs(env *Env, res *Result) {
 	r := NewRng(env.Seed + 13)
 	n := env.N(1200, 30000)
 	var cases []CorrCase
+	var hostiles []bool
+	var inputs [][2]interface{}
 	for i := 0; i < n; i++ {
 		hostile := r.Chance(1, 4)
 		m, names := genDefs(r, hostile)
@@ -274,8 +276,36 @@ func suiteExpandDefs(env *Env, res *Result) {
 			}
 		}
 		cases = append(cases, CorrCase{Fields: []string{"expand_defs", smapArg(m, names), hx(src)}, Impl: "OK\t" + hx(out), Human: fmt.Sprintf("expand %q in %q", m, src), Class: cls})
+		hostiles = append(hostiles, hostile)
+		inputs = append(inputs, [2]interface{}{m, src})
 	}
-	compareWithModelAlt(env, res, cases)
+	outs := compareWithModelAlt(env, res, cases)
+	for i, o := range outs {
+		if !strings.HasPrefix(o, "ORDER-DEPENDENT") {
+			continue
+		}
+		if hostiles[i] {
+			res.count("order-dependent-outside-quantifier(cyclic/computed names)")
+			continue
+		}
+		// acyclic, brace-safe definitions whose expansion depends on the iteration order: show it on the code
+		m := inputs[i][0].(map[string]string)
+		src := inputs[i][1].(string)
+		seen := map[string]bool{}
+		for k := 0; k < 60 && len(seen) < 2; k++ {
+			cp := map[string]string{}
+			for a, b := range m {
+				cp[a] = b
+			}
+			seen[parser.VerifExpandDefinitions(src, cp)] = true
+		}
+		if len(seen) > 1 {
+			f := Failure{Kind: "C07", Shape: "c07_expansion_order_dependent", Input: map[string]interface{}{"definitions": m, "source": src}, Detail: "expandDefinitions gives different results for different map iteration orders"}
+			res.addFailure(f)
+			f.Kind = "C03"
+			res.addFailure(f)
+		}
+	}
 }
 
 var suffixKeys = []string{"@", "~", "a", "b", "c", "xa", "ing", "s", "\"\"", "é", "ab"}
@@ -300,6 +330,7 @@ func suiteReplaceSuffixes(env *Env, res *Result) {
 	r := NewRng(env.Seed + 14)
 	n := env.N(1200, 30000)
 	var cases []CorrCase
+	rsInputs := map[int][2]interface{}{}
 	for i := 0; i < n; i++ {
 		var sb strings.Builder
 		lines := r.Range(0, 6)
@@ -335,6 +366,30 @@ func suiteReplaceSuffixes(env *Env, res *Result) {
 		}
 		sort.Strings(keys)
 		cases = append(cases, CorrCase{Fields: []string{"replace_suffixes", smapArg(m, keys), hx(content)}, Impl: "OK\t" + hx(out), Human: fmt.Sprintf("replaceSuffixes %q %q", m, content), Class: cls})
+		rsInputs[len(cases)-1] = [2]interface{}{m, content}
 	}
-	compareWithModelAlt(env, res, cases)
+	outs := compareWithModelAlt(env, res, cases)
+	for i, o := range outs {
+		if !strings.HasPrefix(o, "ORDER-DEPENDENT") {
+			continue
+		}
+		in, ok := rsInputs[i]
+		if !ok {
+			continue
+		}
+		m := in[0].(map[string]string)
+		content := in[1].(string)
+		seen := map[string]bool{}
+		for k := 0; k < 60 && len(seen) < 2; k++ {
+			o2, _ := parser.VerifReplaceSuffixes(content, m)
+			seen[o2] = true
+		}
+		if len(seen) > 1 {
+			f := Failure{Kind: "C06", Shape: "c06_chained_suffix_pairs", Input: map[string]interface{}{"pairs": m, "content": content}, Detail: "replaceSuffixes gives different results for different map iteration orders (a replacement ends in another pair's key, or two keys are suffixes of the entry)"}
+			res.addFailure(f)
+			f.Kind = "C03"
+			f.Shape = "c03_chained_suffix_pairs"
+			res.addFailure(f)
+		}
+	}
 }
